@@ -435,3 +435,29 @@ Definition cmp_pre (c : pre_case) : list (nat * nat * nat) :=
         (if list_all2 pnode_round ons (pb_pnodes m) then [] else [(5, fst p, 6)%nat]))
       (indexed (combine (ps_bars s) (pc_bars c)))
   end.
+
+(* ---- stage S: the events of a plotted SVG ---- *)
+From Inkfem Require Import Model.Plot.
+Definition zeqb := Z.eqb.
+Definition event_eqb (a b : event) : bool :=
+  match a, b with
+  | EStart w h, EStart w' h' => Z.eqb w w' && Z.eqb h h'
+  | EOpen s, EOpen s' => String.eqb s s'
+  | EClose s, EClose s' => String.eqb s s'
+  | EBarLine i a1 a2 a3 a4, EBarLine i' b1 b2 b3 b4 => String.eqb i i' && Z.eqb a1 b1 && Z.eqb a2 b2 && Z.eqb a3 b3 && Z.eqb a4 b4
+  | ENodeCircle i x y, ENodeCircle i' x' y' => String.eqb i i' && Z.eqb x x' && Z.eqb y y'
+  | ESupport k x y, ESupport k' x' y' => Nat.eqb k k' && Z.eqb x x' && Z.eqb y y'
+  | ELoadGroup x y, ELoadGroup x' y' => Qle_bool (Qabs (x - x')) (1 # 500000) && Qle_bool (Qabs (y - y')) (1 # 500000)
+  | EPolygon a1 a2 a3 a4, EPolygon b1 b2 b3 b4 => Z.eqb a1 b1 && Z.eqb a2 b2 && Z.eqb a3 b3 && Z.eqb a4 b4
+  | EEnd, EEnd => true
+  | _, _ => false
+  end.
+Record plot_case := { pk_in : plot_in; pk_obs : list event }.
+(* first position at which the observed events differ from the model's (and the two lengths) *)
+Fixpoint first_diff (k : nat) (m o : list event) : list (nat * nat * nat) :=
+  match m, o with
+  | [], [] => []
+  | x :: m', y :: o' => if event_eqb x y then first_diff (S k) m' o' else [(k, List.length m, List.length o)]
+  | _, _ => [(k, List.length m, List.length o)]
+  end.
+Definition cmp_plot (c : plot_case) : list (nat * nat * nat) := first_diff 0 (plot_events (pk_in c)) (pk_obs c).
